@@ -1,5 +1,38 @@
-//! C18 — not implemented yet.
+//! C18 — only documented panics occur and no access goes out of bounds.
+#![allow(deprecated, unused_braces)]
+use vcore::*;
+
+mod simd {
+    pub const VARIANT: &str = "simd";
+    use ::glam_simd as glam;
+    include!(concat!(env!("CARGO_MANIFEST_DIR"), "/../apisupport/api_support.rs"));
+    include!(concat!(env!("CARGO_MANIFEST_DIR"), "/../gen/api_table_sse2.rs"));
+    include!("suite.rs");
+}
+#[cfg(not(feature = "core"))]
+mod scalar {
+    pub const VARIANT: &str = "scalar";
+    use ::glam_scalar as glam;
+    include!(concat!(env!("CARGO_MANIFEST_DIR"), "/../apisupport/api_support.rs"));
+    include!(concat!(env!("CARGO_MANIFEST_DIR"), "/../gen/api_table_scalar.rs"));
+    include!("suite.rs");
+}
+#[cfg(feature = "core")]
+mod core_simd {
+    pub const VARIANT: &str = "core";
+    use ::glam_core as glam;
+    include!(concat!(env!("CARGO_MANIFEST_DIR"), "/../apisupport/api_support.rs"));
+    include!(concat!(env!("CARGO_MANIFEST_DIR"), "/../gen/api_table_coresimd.rs"));
+    include!("suite.rs");
+}
+
 fn main() {
-    eprintln!("c18: not implemented");
-    std::process::exit(2);
+    let args = Args::parse();
+    let mut subs = vec![];
+    subs.extend(simd::subs(&args));
+    #[cfg(not(feature = "core"))]
+    subs.extend(scalar::subs(&args));
+    #[cfg(feature = "core")]
+    subs.extend(core_simd::subs(&args));
+    std::process::exit(main_with("C18", "", &args, subs));
 }
